@@ -262,30 +262,69 @@ def check_lon(rep, nlon, o, latest_odd):
     walk(nlon)
     nl = [n for n in names if n.startswith("NL(")]
     ni = [n for n in names if n.startswith("max(")]
-    if len(nl) != 1 or len(ni) != 1:
-        return False
-    NLn, NIn = nl[0], ni[0]
-    i = 1 if latest_odd else 0
-    accepted = {"max((%s-%d),1)" % (NLn, i)}
-    if i == 0:
-        accepted.add("max(%s,1)" % NLn)         # NL - 0 written as NL
-    if NIn not in accepted:
+    if len(nl) > 1 or len(ni) > 1:
         return False
     # NL must be evaluated at the returned latitude
-    pos = o.retval.fields[0]
-    lat_nf = T.nf(pos.fields[0].term)
-    if NLn != "NL(%s)" % T.show(lat_nf, 4000):
+    NLn = "NL(%s)" % T.show(T.nf(o.retval.fields[0].fields[0].term), 4000)
+    if nl and nl[0] != NLn:
+        return False
+    i = 1 if latest_odd else 0
+    NLt, NLm1 = None, None
+    I = lambda n: ("int", IntVal(U32, 0, 131071, tags=frozenset([("name", n)])))
+    if ni:
+        NIn = ni[0]
+        accepted = {"max((%s-%d),1)" % (NLn, i)}
+        if i == 0:
+            accepted.add("max(%s,1)" % NLn)         # NL - 0 written as NL
+        if NIn not in accepted:
+            return False
+        NI = I(NIn)
+    else:
+        # max(NL - i, 1) spelled as a branch: NL - i on the path that established NL > i, the constant 1 on the other one
+        def side(x):
+            return (x.get("name"), x.get("const")) if isinstance(x, dict) else (None, None)
+        gt = le = False
+        for f in o.pc.log:
+            if f[0] != "guard" or f[1].get("float"):
+                continue
+            g = f[1]
+            (an, ac), (bn, bc) = side(g.get("a")), side(g.get("b"))
+            op = g.get("op")
+            if bn == NLn and ac is not None:      # constant on the left: mirror
+                an, ac, bn, bc = bn, None, None, ac
+                op = {"Lt": "Gt", "Gt": "Lt", "Le": "Ge", "Ge": "Le"}.get(op, op)
+            if an != NLn or bc is None:
+                continue
+            if (op == "Gt" and bc == i) or (op == "Ge" and bc == i + 1) or (op == "Ne" and bc == 0 and i == 0):
+                gt = True
+            if (op == "Le" and bc == i) or (op == "Lt" and bc == i + 1) or (op == "Eq" and bc == 0 and i == 0):
+                le = True
+        sub = "(%s-%d)" % (NLn, i)
+        if gt or (i == 0 and not le):              # NL >= 1 always (R1/R2): NL > 0 needs no test
+            if sub in names:
+                NI = I(sub)
+            elif i == 0:
+                NI = I(NLn)
+            else:
+                return False
+        elif le:
+            NI = T.C(1)
+            if i == 1:
+                # NL <= 1 with NL >= 1: the path knows NL = 1 (the value may have been folded into the formula)
+                NLt, NLm1 = T.C(1), T.C(0)
+        else:
+            return False
+    if not nl and NLt is None:
         return False
     S, C, M, A, Sb, D, call = T.S, T.C, T.M, T.A, T.Sb, T.D, T.call
-    I = lambda n: ("int", IntVal(U32, 0, 131071, tags=frozenset([("name", n)])))
     E, O = ("first", "second") if latest_odd else ("second", "first")
     xE, xO = D(I(E + ".lon_cpr"), C(131072)), D(I(O + ".lon_cpr"), C(131072))
-    m = call("floor", A(Sb(M(xE, I("(%s-1)" % NLn)), M(xO, I(NLn))), C("0.5")))
+    m = call("floor", A(Sb(M(xE, NLm1 if NLm1 is not None else I("(%s-1)" % NLn)), M(xO, NLt if NLt is not None else I(NLn))), C("0.5")))
     xi = xO if latest_odd else xE
-    r = ("Rem", m, I(NIn))
+    r = ("Rem", m, NI)
     forms = []
-    for pm in (r, A(r, I(NIn))):
-        base = M(D(C(360), I(NIn)), A(pm, xi))
+    for pm in (r, A(r, NI)):
+        base = M(D(C(360), NI), A(pm, xi))
         forms += [T.nf(base), T.nf(Sb(base, C(360)))]
     return nlon in forms
 
